@@ -1772,6 +1772,12 @@ class Exec:
 
     def same_value(self, a, b):
         """structural equality of two values of the same shape (used by unchanged / frame)"""
+        if isinstance(a, ElemRef) or isinstance(b, ElemRef):
+            if isinstance(a, ElemRef) and isinstance(b, ElemRef):
+                la, lb = self.heap.get(a.oid), self.heap.get(b.oid)
+                same_list = a.oid == b.oid or getattr(la, "orig", a.oid) == getattr(lb, "orig", b.oid)
+                return z3.And(z3.BoolVal(same_list and a.part == b.part and a.prefix == b.prefix), a.idx == b.idx)
+            return z3.BoolVal(False)
         if isinstance(a, SV) and isinstance(b, SV):
             if a.kind == b.kind and a.kind != "val":
                 return z3.BoolVal(True) if a.kind == "none" else a.term == b.term
